@@ -79,3 +79,9 @@ claim("C07",
   "ValidateRequest must succeed exactly when the model says every part passes; in multi-error mode the members of the returned MultiError must be exactly the failing parts (security / each parameter by identity / body); the callback must only ever be called for schemes and scopes of the requirement list in effect, and never when that list is empty.",
   "Trusted: the model (about 40 lines in props/c07), validity of each part by construction. Parameters use integer schemas and form/simple defaults only (C05 covers decoding).",
   "DESIGN.md#c07")
+
+claim("C08",
+  "model-based property testing: a selection-and-verdict model of response validation (entry chosen by exact code, class, default; unchecked HEAD and redirect statuses; required / schema-checked headers; content type; body read as a response) compared with ValidateResponse; the keys x status x marker-header table is enumerated completely with the selected entry made observable through per-entry required headers, schemas / bodies / options are sampled with rapid; the body is read back after every call",
+  "ValidateResponse must accept exactly when the model does: the entry for the status is chosen by exact code, then class, then default; an undeclared status passes unless IncludeResponseStatus; a missing required header, a header or body violating its schema read as a response (writeOnly forbidden and not required, readOnly allowed, ExcludeWriteOnlyValidations honoured), an undeclared content type or an undecodable body reject; ExcludeResponseBody removes only the body part; and input.Body must still yield the original bytes.",
+  "Trusted: the model (props/c08), internal/refschema in response mode, internal/styleser for header text.",
+  "DESIGN.md#c08")
